@@ -103,7 +103,7 @@ class GuardFlow:
         self._in_progress = set()
         self.entry = {}          # fn -> (facts over π tokens, {param: Elems}, {param: kind})
         self.results = {}
-        self._uid = 0
+        self._foreign = None
 
     # ---- naming ------------------------------------------------------------
     def canonical_call(self, call):
@@ -776,11 +776,18 @@ class GuardFlow:
 
     # ---- whole module ---------------------------------------------------------------------
     def private(self, q):
+        """a helper only this module can call: private name that no other module of the package mentions and that is never used as a value"""
         name = q.split(".")[-1]
         if not name.startswith("_") or name.startswith("__"):
             return False
-        rx = re.compile(r"\b" + re.escape(name) + r"\b")
-        return not any(rx.search(src) for src in self.package_sources)
+        if self._foreign is None:
+            self._foreign = set()
+            for src in self.package_sources:
+                self._foreign.update(re.findall(r"\b_[A-Za-z0-9_]+\b", src))
+            called = {id(c.func) for c in ast.walk(self.mod.tree) if isinstance(c, ast.Call)}
+            self._values = {n.id for n in ast.walk(self.mod.tree) if isinstance(n, ast.Name) and isinstance(n.ctx, ast.Load) and id(n) not in called}
+            self._values |= {n.attr for n in ast.walk(self.mod.tree) if isinstance(n, ast.Attribute) and isinstance(n.ctx, ast.Load) and id(n) not in called}
+        return name not in self._foreign and name not in self._values
 
     def run(self):
         entry = {}
@@ -793,7 +800,7 @@ class GuardFlow:
             # a function referenced other than as a call target may be called with anything
             new = {}
             for q, ss in sites.items():
-                if not self.private(q) or self._escapes(q) or any(s[0] is None for s in ss):
+                if not self.private(q) or any(s[0] is None for s in ss):
                     continue
                 ps = self.params(q)
                 facts_all = None
@@ -814,18 +821,6 @@ class GuardFlow:
             entry = new
         self.entry = entry
         return self.results
-
-    def _escapes(self, q):
-        name = q.split(".")[-1]
-        for n in ast.walk(self.mod.tree):
-            if isinstance(n, ast.Name) and n.id == name and isinstance(n.ctx, ast.Load):
-                # fine when it is the function of a call
-                pass
-        calls = {id(c.func) for c in ast.walk(self.mod.tree) if isinstance(c, ast.Call)}
-        for n in ast.walk(self.mod.tree):
-            if isinstance(n, ast.Name) and n.id == name and isinstance(n.ctx, ast.Load) and id(n) not in calls:
-                return True
-        return False
 
     def reachable(self, root):
         seen, todo = set(), [root]
@@ -897,6 +892,7 @@ class Confined:
                     if prev is None or self.fns[prev].lineno <= f.lineno:
                         self.owner[id(n)] = key
         self.param_conf = {}                     # (key, param) -> bool   (least fixpoint)
+        self._bind_memo = {}
         self._ret_memo = {}
         self._stack = set()
         self.sites = self._call_sites()
@@ -1028,8 +1024,11 @@ class Confined:
     # -- value analysis
     def bindings(self, key, name):
         """every expression a local name is bound to in the function (None entries: a binding that is not a plain value)"""
+        memo = self._bind_memo.get((key, name))
+        if memo is not None:
+            return memo
         f = self.fns[key]
-        out = []
+        out = self._bind_memo[(key, name)] = []
         for n in ast.walk(f):
             if isinstance(n, ast.Assign):
                 for t in n.targets:
